@@ -352,7 +352,7 @@ func (a *Allocator) realloc(req *Request, nodes NodeMask, types TypeMask) (zone 
 	}()
 
 	newNodes, newTypes := a.expand(req.zone|nodes, types)
-	if newNodes == 0 {
+	if newNodes == 0 && (a.zoneType(req.zone|nodes)&types) != types {
 		return 0, nil, fmt.Errorf("%w: failed to reallocate, can't find new %s nodes",
 			ErrNoMem, types)
 	}
